@@ -9,6 +9,7 @@
 import Props.Tables
 import Proofs.ErrFlow
 import Jmes.Interp
+import Proofs.SortKeys
 namespace Jmes.Props
 open Jmes Jmes.Interp
 
@@ -415,5 +416,16 @@ example (ft : List FnEntry) (d : Val Int) :
     Evaluated ft (.proj (.flatten (.call [0x61] [(false, .literal (.str [0x61]))])) .identity) d
       (.call [0x61] [(false, .literal (.str [0x61]))]) d :=
   .projL (.flatten (.here _ _))
+
+
+/-- `sort_by` over an array of ANY length: a key expression that fails on ANY element — wherever it sits, however many elements
+    the sorting routine would compare before reaching it — makes the call fail (given a number key first and no panicking key). -/
+theorem C11_sort_by_key_error_any_position {N : Type} [NumOps N] (f : Val N → Res (Val N)) (x : Val N) (rest : List (Val N)) (n : N) (y : Val N) (e : Err)
+    (h0 : f x = .ok (.num n)) (hy : y ∈ rest) (h1 : f y = .err e)
+    (hp : ∀ z ∈ rest, ∀ p, f z ≠ .panic p) : ∃ e', Fn.sortBy f (x :: rest) = .err e' := by
+  have hnone := Fn.keysNum_none_of_key_error f rest y e hy h1 hp
+  cases rest with
+  | nil => cases hy
+  | cons r rs => simp only [Fn.sortBy, h0, hnone]; exact ⟨_, rfl⟩
 
 end Jmes.Props
